@@ -18,7 +18,10 @@ fn main() {
     let mut seed: u64 = std::env::var("VERIF_SEED").ok().and_then(|s| s.parse::<i64>().ok()).map(|x| x as u64).unwrap_or(1);
     let mut replay: Option<String> = None;
     let mut flavour = "dbg".to_string();
-    let verif_dir = std::env::var("VERIF_DIR").unwrap_or_else(|_| "/verif".into());
+    let mut verif_dir = std::env::var("VERIF_DIR").unwrap_or_else(|_| "/verif".into());
+    // parameters travel by argv: under `cargo miri run` the program sees the environment recorded when the binary was
+    // built, not the one of this invocation (the environment variables stay as a fallback for manual use)
+    let mut scale_arg: Option<f64> = None;
     let mut evidence: Option<String> = None;
     let mut nshards = None;
     let mut worker: Option<u64> = None;
@@ -44,6 +47,14 @@ fn main() {
             }
             "--flavour" => {
                 flavour = args[i + 1].clone();
+                i += 1;
+            }
+            "--scale" => {
+                scale_arg = args[i + 1].parse().ok();
+                i += 1;
+            }
+            "--verif-dir" => {
+                verif_dir = args[i + 1].clone();
                 i += 1;
             }
             "--evidence" => {
@@ -136,7 +147,7 @@ fn main() {
     if let Some(r) = replay {
         std::process::exit(replay_prop(p.as_ref(), &r));
     }
-    let scale: f64 = std::env::var("VERIF_SCALE").ok().and_then(|s| s.parse().ok()).unwrap_or(1.0);
+    let scale: f64 = scale_arg.or_else(|| std::env::var("VERIF_SCALE").ok().and_then(|s| s.parse().ok())).unwrap_or(1.0);
     let evidence_path = evidence.unwrap_or_else(|| format!("{verif_dir}/evidence/{id}.json"));
     let o = RunOpts { tier, seed, scale, flavour, verif_dir, evidence_path, nshards, enforce_min: !no_min };
     std::process::exit(run_prop(p.as_ref(), &o));
